@@ -4,7 +4,6 @@
 package core
 
 import (
-	"runtime/debug"
 	"bufio"
 	"encoding/hex"
 	"encoding/json"
@@ -13,6 +12,7 @@ import (
 	"math/rand"
 	"os"
 	"os/exec"
+	"runtime/debug"
 	"sort"
 	"strings"
 	"sync"
@@ -121,18 +121,18 @@ type Disagreement struct {
 }
 
 type Result struct {
-	Property      string           `json:"property"`
-	Tier          string           `json:"tier"`
-	Seed          int64            `json:"seed"`
-	Cases         int              `json:"cases"`
-	Ops           int              `json:"ops"`
-	Nontrivial    int              `json:"distinct_nontrivial"`
-	OpHistogram   map[string]int   `json:"op_histogram"`
-	OutHistogram  map[string]int   `json:"out_histogram"`
-	Samples       []Case           `json:"samples"`
-	Disagreements []Disagreement   `json:"disagreements"`
-	Extra         map[string]any   `json:"extra,omitempty"`
-	WallS         float64          `json:"wall_s"`
+	Property      string         `json:"property"`
+	Tier          string         `json:"tier"`
+	Seed          int64          `json:"seed"`
+	Cases         int            `json:"cases"`
+	Ops           int            `json:"ops"`
+	Nontrivial    int            `json:"distinct_nontrivial"`
+	OpHistogram   map[string]int `json:"op_histogram"`
+	OutHistogram  map[string]int `json:"out_histogram"`
+	Samples       []Case         `json:"samples"`
+	Disagreements []Disagreement `json:"disagreements"`
+	Extra         map[string]any `json:"extra,omitempty"`
+	WallS         float64        `json:"wall_s"`
 }
 
 func firstDiff(a, b []string) int {
